@@ -81,7 +81,10 @@ var filterTexts = []string{"", "gametype='CO-OP'", "numplayers!=maxplayers and p
 // (lone quotes, empty quotes, quotes inside, signs without digits, operators without operands, long runs)
 func nastyFilter(rng *rand.Rand) string {
 	q := "'"
-	vals := []string{q, q + q, q + q + q, q + "a", "a" + q, q + "a" + q + "b" + q, "", "0", "+", "-", "+1", "-0", "99999999999999999999", q, "hostname", q + " and " + q, "=", "!", "<>"}
+	vals := []string{q, q + q, q + q + q, q + "a", "a" + q, q + "a" + q + "b" + q, "", "0", "+", "-", "+1", "-0", "99999999999999999999", q, "hostname", q + " and " + q, "=", "!", "<>",
+		// bytes that are not UTF-8, and runes whose case mapping changes their encoded width (a parser that folds case must not index with the folded text)
+		q + "\xc9\xc9\xc9\xc9\xc9\xc9\xc9\xc9" + q, "\xff\xff\xff\xff", q + "\xe9t\xe9" + q, q + "\u0130\u0130\u0130\u0130" + q, q + "\u212a\u212a\u212a" + q,
+		q + "\u1e9e\u023a\u023e" + q, q + "Smash And Grab" + q, q + "A AND B" + q, "\xc3", "\xe2\x82"}
 	ops := []string{"=", "!=", "<", ">", "==", "=!", "", "<=", " = "}
 	n := 1 + rng.Intn(3)
 	parts := make([]string, n)
